@@ -963,23 +963,30 @@ def replay(obj):
 # ------------------------------------------------------------------ caches and the every-line stream
 
 HEADER2 = """From Coq Require Import List Arith Bool String. Import ListNotations.
-From TP Require Import Check.C20chk Check.C20cachechk.
+From TP Require Import Check.C20chk Check.C20cachechk Check.C20classchk.
 Local Open Scope string_scope.
 """
 
 CVERDICT_NAMES = {0: "CacheSafe", 2: "CacheRacy", 4: "CacheUndecided"}
 
 
-def coq_classification2(sa, ca, trees):
-    """racy validators inside every profile field; verdict / witness / placeholder line of every cache entry"""
+def coq_classification2(sa, ca, trees, classes=None):
+    """racy validators inside every profile field; verdict / witness / placeholder line of every cache entry;
+    class-level safety (Global/ClassModel.v) of every class profile"""
     idx = {e["name"]: i for i, e in enumerate(sa["entries"])}
+    classes = classes or {}
+    cnames = sorted(classes)
     body = "Eval vm_compute in cache_verdicts.\nEval vm_compute in cache_witnesses.\nEval vm_compute in cache_placeholder_tags.\n"
     for (_, _, _, t) in trees:
         body += "Eval vm_compute in (racy_nodes %s).\n" % emit_tree(t, idx)
+    for cn in cnames:
+        body += "Eval vm_compute in (class_safe_of %s).\n" % E.lst([str(i) for i in classes[cn][0]])
     rc, out, err = core.eval_cases([body], "c20cls2", HEADER2)[0]
     vals = core.parse_eval(out)
-    if rc != 0 or len(vals) != 3 + len(trees):
+    if rc != 0 or len(vals) != 3 + len(trees) + len(cnames):
         return None, (out + err)[-1500:]
+    class_vals = vals[3 + len(trees):]
+    vals = vals[:3 + len(trees)]
     codes = core.parse_nat_list(vals[0])
     wit = core.parse_nat_list(vals[1])
     tags = core.parse_nat_list(vals[2])
@@ -992,7 +999,8 @@ def coq_classification2(sa, ca, trees):
     racy = []
     for v in vals[3:]:
         racy.append([sa["entries"][i]["name"] if i < len(sa["entries"]) else "?" for i in core.parse_nat_list(v)])
-    return {"caches": caches, "racy": racy}, ""
+    return {"caches": caches, "racy": racy,
+            "class_safe": {cn: v.strip().startswith("true") for cn, v in zip(cnames, class_vals)}}, ""
 
 
 def cache_stream(rep, ca, cls2, model_ok):
@@ -1132,8 +1140,8 @@ def run(rep, tier):
     from harness.genmods import shared_access as gen
     rnd = random.Random(core.seed() * 1000003 + 20)
     proofs_ok, model_ok = core.standard_proof_obligations(
-        rep, "C20", ["theories/Check/C20chk.vo", "theories/Check/C20cachechk.vo", "theories/Global/SharedNameProofs.vo",
-                     "theories/Global/CacheProofs.vo"])
+        rep, "C20", ["theories/Check/C20chk.vo", "theories/Check/C20cachechk.vo", "theories/Check/C20classchk.vo",
+                     "theories/Global/SharedNameProofs.vo", "theories/Global/CacheProofs.vo", "theories/Global/ClassModelProofs.vo"])
     rep.assumptions += [
         "PARTIAL: atomicity grain = source line (pre-emption points: the statements named in the generated "
         "shared-access table, the store lines of Field.__set__, every line of the cache-installing serializers, "
@@ -1171,8 +1179,9 @@ def run(rep, tier):
     ca = cgen.cache_access()
     trees = LN.profile_field_trees()
     cls2, err2 = (None, "model not built")
+    class_idx = LN.class_entry_indices(sa)
     if model_ok:
-        cls2, err2 = coq_classification2(sa, ca, trees)
+        cls2, err2 = coq_classification2(sa, ca, trees, class_idx)
     rep.obligation("model:cache-classification-evaluated", cls2 is not None, err2)
     if cls2 is None:
         rep.broken("model:cache-classification", "could not evaluate the classification of the generated cache table in Coq: " + err2)
@@ -1181,6 +1190,23 @@ def run(rep, tier):
     else:
         rep.cov["lines_racy_fields"] = LN.set_racy(trees, cls2["racy"])
     cache_stream(rep, ca, cls2, model_ok)
+    if cls2 is not None:
+        # class level: C20_class_safe_all_schedules applies to the classes decided safe; it must agree with the per-field verdicts
+        rep.cov["class_level_safe"] = {cn: {"fields_validators": [sa["entries"][i]["name"] for i in class_idx[cn][0]],
+                                            "scalar_fields": class_idx[cn][1], "safe": cls2["class_safe"].get(cn)}
+                                       for cn in sorted(class_idx)}
+        incons = []
+        for cn, (ids, _, unknown_v) in class_idx.items():
+            flat_racy = [sa["entries"][i]["name"] for i in ids if verdicts.get(sa["entries"][i]["name"]) not in (0, 1)]
+            if cls2["class_safe"].get(cn) != (not flat_racy) or unknown_v:
+                incons.append("%s: class_safe_b=%s, fields not classified safe: %s, validators not in the table: %s"
+                              % (cn, cls2["class_safe"].get(cn), flat_racy, unknown_v))
+        rep.obligation("model:class-level-agrees-with-fields", not incons,
+                       "%d classes: the class is decided safe exactly when every field's validator is (cells of different fields "
+                       "are disjoint after renaming); safe today: %s" % (len(class_idx), sorted(c for c, v in cls2["class_safe"].items() if v))
+                       if not incons else "; ".join(incons[:4]))
+        if incons:
+            rep.broken("model:class-level", "class-level decision and per-field classification disagree: " + "; ".join(incons[:4]))
 
     # ---- census: which module-level / class-level state do the operations write at all?
     census_unknown, census_all, census_ops = LN.shared_write_census(ca)
